@@ -270,6 +270,7 @@ func checkC07(c C07Case, r *Rec) *Violation {
 			if ctx != nil && self != nil && (ctx.Ctx == nil || ctx.Ctx.Value(reenterKey{}) == nil) {
 				inner := &eval.Ctx{VariableFetcher: ctx.VariableFetcher, Ctx: context.WithValue(context.Background(), reenterKey{}, true)}
 				_, _ = self.Eval(inner)
+				_, _ = self.TryEval(inner)
 			}
 			return params[0], nil
 		}
